@@ -715,7 +715,7 @@ func (in *Interp) makeSlice(th *Thread, t types.Type, ln, cp *Term, lt, ct types
 		n = int(c64.Val)
 	} else {
 		// symbolic capacity: find an upper bound via the solver
-		n = int(in.upperBound(c64, uint64(in.cfg.MaxAlts)))
+		n = int(in.upperBound(c64, 1<<16))
 	}
 	arr := in.newArrayCell(elem, n)
 	return SliceV{arr, in.c64(0), l64, c64}
@@ -724,7 +724,7 @@ func (in *Interp) makeSlice(th *Thread, t types.Type, ln, cp *Term, lt, ct types
 // upperBound returns the smallest power-of-two-ish bound B <= limit such that t <= B on this path,
 // or fails the path as unsupported.
 func (in *Interp) upperBound(t *Term, limit uint64) uint64 {
-	for _, b := range []uint64{4, 8, 16, 32, 64, 128, 256, 1024, 4096} {
+	for _, b := range []uint64{4, 8, 16, 32, 64, 128, 256, 1024, 4096, 16384, 65536} {
 		if b > limit {
 			break
 		}
